@@ -272,16 +272,73 @@ func bitsCount(x uint64) int {
 
 // ---- targets ---------------------------------------------------------------------------------------------------------
 
-func c13KVExec(p spi.Provider) (c13Exec, error) {
-	st, err := p.OpenStore("c13")
-	if err != nil {
-		return nil, err
+func c13KVExec(p spi.Provider) (c13Exec, error) { return c13KVExecOpen(p, false) }
+
+// c13OpenTogether: eight goroutines, released together, open one never-opened store name; what is written through any
+// of the handles must be readable through the first (the handles are ONE store). Fresh name per round.
+func c13OpenTogether(p spi.Provider, rounds int) error {
+	const g = 8
+	for r := 0; r < rounds; r++ {
+		name := fmt.Sprintf("c13-together-%d", r)
+		hs := make([]spi.Store, g)
+		start := make(chan struct{})
+		var wg sync.WaitGroup
+		for i := 0; i < g; i++ {
+			wg.Add(1)
+			go func(i int) {
+				defer wg.Done()
+				<-start
+				hs[i], _ = p.OpenStore(name)
+			}(i)
+		}
+		close(start)
+		wg.Wait()
+		for i, h := range hs {
+			if h == nil {
+				return fmt.Errorf("OpenStore failed under concurrent first opens")
+			}
+			if err := h.Put(fmt.Sprintf("p%d", i), []byte("v")); err != nil {
+				return err
+			}
+		}
+		for i := range hs {
+			if _, err := hs[0].Get(fmt.Sprintf("p%d", i)); err != nil {
+				return fmt.Errorf("NOT-ONE-STORE: handles of store %q opened at the same moment are different stores (a write through handle %d returned ok and is invisible through handle 0)", name, i)
+			}
+		}
 	}
-	if err := p.SetStoreConfig("c13", spi.StoreConfiguration{TagNames: []string{"t"}}); err != nil {
-		return nil, err
+	return nil
+}
+
+// lateOpen: no handle is opened beforehand; EVERY operation opens the store by name and works through the handle it got
+// (several services of one agent opening the same store at the same moment): all handles are the same store
+func c13KVExecOpen(p spi.Provider, lateOpen bool) (c13Exec, error) {
+	var st0 spi.Store
+	if !lateOpen {
+		var err error
+		st0, err = p.OpenStore("c13")
+		if err != nil {
+			return nil, err
+		}
+		if err := p.SetStoreConfig("c13", spi.StoreConfiguration{TagNames: []string{"t"}}); err != nil {
+			return nil, err
+		}
+	}
+	if lateOpen {
+		if err := c13OpenTogether(p, 400); err != nil {
+			return nil, err
+		}
 	}
 	return func(op string) string {
 		f := strings.Split(op, " ")
+		st := st0
+		if lateOpen {
+			var err error
+			st, err = p.OpenStore("c13-late")
+			if err != nil {
+				return "err"
+			}
+		}
 		switch f[0] {
 		case "cfg":
 			// provider level calls next to the data operations (no effect on the data: the sequential result is "ok")
@@ -370,6 +427,20 @@ func c13Target(name string) (c13Exec, c13Spec, func(r *Rng, g int) string, error
 	case "cached":
 		e, err := c13KVExec(cachedstore.NewProvider(mem.NewProvider(), mem.NewProvider()))
 		return e, c13KVSpec, kvGen, err
+	case "mem-open", "formatted-open":
+		// (no provider level calls here: they need a store that was configured beforehand)
+		gen := func(r *Rng, g int) string {
+			if op := kvGen(r, g); !strings.HasPrefix(op, "cfg") {
+				return op
+			}
+			return "get k1"
+		}
+		var p spi.Provider = mem.NewProvider()
+		if name == "formatted-open" {
+			p = formattedstore.NewProvider(mem.NewProvider(), exampleformatters.NewBase64Formatter(true))
+		}
+		e, err := c13KVExecOpen(p, true)
+		return e, c13KVSpec, gen, err
 	case "batched":
 		e, err := c13KVExec(batchedstore.NewProvider(mem.NewProvider(), 3))
 		return e, c13KVSpec, kvGen, err
@@ -729,7 +800,7 @@ func c13Gen(r *Rng, tier string) []string {
 	if tier == "thorough" {
 		n = 30000
 	}
-	targets := []string{"mem", "cached", "batched", "formatted", "kms", "kms2", "session", "pickup", "wsave"}
+	targets := []string{"mem", "cached", "batched", "formatted", "kms", "kms2", "session", "pickup", "wsave", "mem-open", "formatted-open"}
 	var out []string
 	for i := 0; i < n; i++ {
 		g := 2 + r.N(7)
